@@ -5,7 +5,7 @@ from koala.lattice import Lattice, LatticeException
 
 DRIVERS = ("lat",)
 MODEL_TARGETS = ["Model/Lattice.vo"]
-TARGETS = []
+TARGETS = ["Proofs/LatticeFacts.vo"]
 LEVEL = "proof"
 TRUST = [
     "hand-written Gallina model coq/Model/Lattice.v of lattice.py (_sorted_vertex_adjacent_edges, _find_plaquette, _find_all_plaquettes): modelled, not verified; tied to the code by the correspondence run below",
